@@ -41,6 +41,14 @@ SwapCall(h) ==
   /\ arr' = Append(arr, <<arr[h][2], arr[h][1]>>)          \* the same two arrays, roles exchanged
   /\ last' = [op |-> "swap", h |-> h, shape |-> <<>>, arg |-> <<>>]
 
+(* copy.copy(obj) (shares the two score arrays), copy.deepcopy(obj) / a pickle round trip (new     *)
+(* arrays): a new live object equal to the source                                                 *)
+CopyCall(h, how) ==
+  /\ calls < MaxCalls /\ calls' = calls + 1 /\ h \in DOMAIN store /\ Len(store) < 3
+  /\ store' = Append(store, store[h])
+  /\ arr' = Append(arr, IF how = "copy" THEN arr[h] ELSE <<FreshId, FreshId + 50>>)
+  /\ last' = [op |-> "copy", h |-> h, shape |-> <<>>, arg |-> <<how>>]
+
 (* the caller assigns new easy-sample counts to the public attributes of a live    *)
 (* object: the only action that CHANGES an object of the store                     *)
 SetEasy(h, ep, en) ==
@@ -90,6 +98,7 @@ ArgsFor(op, shape) ==
 SNext == \/ \E h \in DOMAIN store, op \in QueryOps, shape \in Shapes :
               (op \in ScalarOps => shape = <<>>) /\ \E arg \in ArgsFor(op, shape) : Query(h, op, shape, arg)
          \/ \E h \in DOMAIN store : SwapCall(h)
+         \/ \E h \in DOMAIN store, how \in {"copy", "deepcopy", "pickle"} : CopyCall(h, how)
          \/ \E h \in DOMAIN store, ep \in {0, 2}, en \in {0, 1, 3} : SetEasy(h, ep, en)
          \/ \E h \in DOMAIN store, sc \in {"pos", "neg"}, ec \in {"pos", "neg"} : SetConfig(h, sc, ec)
          \/ \E h \in DOMAIN store, cls \in {"pos", "neg"}, seq \in NewScores : SetScores(h, cls, seq)
